@@ -17,7 +17,9 @@ from multiprocessing.connection import wait
 
 def _worker(fn, conn):
     import sys
-    sys.setrecursionlimit(20000)
+    # the implementation runs under CPython's DEFAULT recursion limit (what a user gets); the parent
+    # harness process raises its own limit, which fork would otherwise hand down
+    sys.setrecursionlimit(1000)
     while True:
         try:
             msg = conn.recv()
